@@ -32,6 +32,7 @@ def evm_ir_of(s):
 
 
 CONTEXTS = ["value", "iszero", "if", "assert", "other"]
+BRANCH_CONTEXTS = ["ifbranch", "ifelse"]
 
 
 def wrap_ctx(e, ctxname):
@@ -43,6 +44,10 @@ def wrap_ctx(e, ctxname):
         body = [["if", e, ["mstore", 0, 11], ["mstore", 0, 22]]]
     elif ctxname == "assert":
         body = [["assert", e], ["mstore", 0, 33]]
+    elif ctxname == "ifbranch":     # E is the VALUE of an if branch (the parent op is `if`, but the context is not truthy)
+        body = [["mstore", 0, ["if", "y", e, 77]]]
+    elif ctxname == "ifelse":
+        body = [["mstore", 0, ["if", "y", 77, e]]]
     elif ctxname == "other":
         body = [["mstore", 0, ["add", e, 1]]]
     else:
